@@ -275,6 +275,12 @@ class OvfProfile(StoreProfile):
             if rep == "bin4" and fsh.array.size and float(abs(fsh.array).max()) > 3.4e38:
                 o["rep"] = "bin8"
             return o
+        if paths and rng.random() < 0.04:
+            ok = [p for p in paths if st.paths[p].damage is None]
+            if ok:
+                rel = rng.choice(ok)
+                st.pending = [{"op": "mutate_loaded", "src": out, "how": rng.choice(["translate", "scale", "subs"])}, {"op": "read", "path": rel}]
+                return {"op": "read", "path": rel, "keep": out}
         if r < 0.62:
             return {"op": "read", "path": rng.choice(paths)}
         if r < 0.72:
@@ -364,7 +370,7 @@ class Hdf5Profile(StoreProfile):
     prop = "C10"
     name = "hdf5"
     fmt = "hdf5"
-    required_probes = ("path_reuse", "foreign_hdf5-legacy", "recovery_read", "intcorner_floatsubs", "stale_sidecar_next_to_hdf5", "twin_field", "large_field", "legacy_unsorted_corners")
+    required_probes = ("path_reuse", "foreign_hdf5-legacy", "recovery_read", "intcorner_floatsubs", "stale_sidecar_next_to_hdf5", "twin_field", "large_field", "legacy_unsorted_corners", "loaded_mesh_changed_by_caller", "write_failed_midway")
     rule = (
         "one case = one seeded store history (3-20 ops) of HDF5 writes and reads of 1-4-d fields (arbitrary dims/units/tolerance/"
         "bc/subregions, int- or float-typed corners crossed with int- or float-typed subregion corners, labels and unit present or "
@@ -437,6 +443,17 @@ class Hdf5Profile(StoreProfile):
         r = rng.random()
         if st.f and len(st.f) < 4 and rng.random() < 0.08:
             return {"op": "mkvariant", "src": rng.choice(sorted(st.f)), "out": out, "change": rng.choice(["tol", "tol", "corners", "corners", "bc", "subs", "unit"]), "tol": rng.choice([1e-6, 1e-9, 1e-3])}
+        if paths and rng.random() < 0.05:
+            # read - the caller changes the mesh it got - read again (the same or another path)
+            rel = rng.choice(paths)
+            st.pending = [{"op": "mutate_loaded", "src": out, "how": rng.choice(["translate", "scale", "subs", "bc"])}, {"op": "read", "path": rel}] + ([{"op": "read", "path": rng.choice(paths)}] if len(paths) > 1 else [])
+            return {"op": "read", "path": rel, "keep": out}
+        if st.f and rng.random() < 0.04:
+            # a write that fails midway, then an ordinary write to the same name and its read-back
+            rel = rng.choice(names)
+            src = rng.choice(sorted(st.f))
+            st.pending = [{"op": "write", "src": src, "path": rel, "fmt": "hdf5", "rep": None, "opts": {}}, {"op": "read", "path": rel}]
+            return {"op": "write_poison", "src": src, "path": rel, "fault": "failed_write"}
         if r < 0.4 or not paths:
             return {"op": "write", "src": rng.choice(sorted(st.f)), "path": rng.choice(names), "fmt": "hdf5", "rep": None, "opts": {}}
         if r < 0.65:
@@ -532,6 +549,12 @@ class VtkProfile(StoreProfile):
             if rng.random() < 0.15 and not st.fs.exists(_sidecar(rel)):
                 opts["save_subregions"] = False
             return {"op": "write", "src": rng.choice(good), "path": rel, "fmt": "vtk", "rep": rng.choice(cfg["reps"]), "opts": opts}
+        if paths and rng.random() < 0.04:
+            ok = [p for p in paths if st.paths[p].damage is None]
+            if ok:
+                rel = rng.choice(ok)
+                st.pending = [{"op": "mutate_loaded", "src": out, "how": rng.choice(["translate", "scale", "subs"])}, {"op": "read", "path": rel}]
+                return {"op": "read", "path": rel, "keep": out}
         if r < 0.55:
             return {"op": "read", "path": rng.choice(paths)}
         if r < 0.68:
